@@ -230,3 +230,139 @@ def gen_C03(rng, tier):
 
 
 GENERATORS = {"C01": gen_C01, "C02": gen_C02, "C03": gen_C03}
+
+
+# ------------------------------------------------------------------------------------------- C14
+def rand_state(rng):
+    def comp():
+        r = rng.random()
+        if r < 0.25:
+            return "00000000"
+        if r < 0.30:
+            return "80000000"
+        return rand_f(rng)
+    return "%s/%s/%s" % (comp(), comp(), comp())
+
+
+def gen_C14(rng, tier):
+    L = []
+    n = n_of(tier, 3000, 20000)
+    for _ in range(n):
+        s = rand_state(rng)
+        dt = rng.choice([0, 1, -1, 2_000_000_000, -2_000_000_000, rng.randint(-10 ** 14, 10 ** 14), rng.randint(-10 ** 9, 10 ** 9)])
+        L.append("k supd %s %d" % (s, dt))
+    for (m, sx) in GRID:
+        for op in ["ssetp", "ssetv", "sseta"]:
+            for _ in range(n_of(tier, 2, 6)):
+                L.append("k %s %s %s" % (op, rand_state(rng), q(rand_f(rng), m, sx)))
+        # State::new with one argument of this unit in each position
+        L.append("k snew %s %s %s" % (q(rand_f(rng), m, sx), q(rand_f(rng), 1, -1), q(rand_f(rng), 1, -2)))
+        L.append("k snew %s %s %s" % (q(rand_f(rng), 1, 0), q(rand_f(rng), m, sx), q(rand_f(rng), 1, -2)))
+        L.append("k snew %s %s %s" % (q(rand_f(rng), 1, 0), q(rand_f(rng), 1, -1), q(rand_f(rng), m, sx)))
+    for _ in range(n_of(tier, 600, 4000)):
+        s, s2 = rand_state(rng), rand_state(rng)
+        f = rand_f(rng)
+        for op in ["ssetpr", "ssetvr", "ssetar", "smul", "sdiv", "smulas", "sdivas"]:
+            L.append("k %s %s %s" % (op, s, f))
+        for op in ["sadd", "ssub", "saddas", "ssubas", "seq"]:
+            L.append("k %s %s %s" % (op, s, s2))
+        for op in ["sgetp", "sgetv", "sgeta", "sneg", "cfroms"]:
+            L.append("k %s %s" % (op, s))
+        for pd in "PVA":
+            L.append("k sget %s %s" % (s, pd))
+            L.append("k cnew %s %s" % (pd, f))
+        L.append("k snewraw %s %s %s" % tuple(s.split("/")))
+    for k1 in "PVA":
+        for k2 in "PVA":
+            for _ in range(n_of(tier, 30, 200)):
+                a, b = k1 + rand_f(rng), k2 + rand_f(rng)
+                for op in ["cadd", "csub", "caddas", "csubas", "ceq"]:
+                    L.append("k %s %s %s" % (op, a, b))
+        for _ in range(n_of(tier, 60, 400)):
+            a = k1 + rng.choice([rand_f(rng), "00000000", "80000000", "7fc00000"])
+            f = rand_f(rng)
+            for op in ["cmul", "cdiv", "cmulas", "cdivas"]:
+                L.append("k %s %s %s" % (op, a, f))
+            for op in ["ckind", "craw", "cpos", "cvel", "cacc", "cneg"]:
+                L.append("k %s %s" % (op, a))
+            L.append("k ceq %s %s" % (a, a))
+            L.append("q c2q %s" % a)
+    for (m, sx) in GRID:
+        L.append("q q2c %s" % q(rand_f(rng), m, sx))
+    for _ in range(n_of(tier, 300, 2000)):
+        L.append("k pidk %s" % " ".join(rand_f(rng) for _ in range(6)))
+        L.append("k pidk3 %s %s %s" % (" ".join(rand_f(rng) for _ in range(9)), rng.choice("PVA"), " ".join(rand_f(rng) for _ in range(3))))
+        L.append("k pidk3get %s %s" % (" ".join(rand_f(rng) for _ in range(9)), rng.choice("PVA")))
+    return L
+
+
+# ------------------------------------------------------------------------------------------- C18
+def strat_i64(rng):
+    """stratified over magnitudes 0..2^62 and signs, plus neighbourhoods of 2^24*2^k (rounding ties)"""
+    r = rng.random()
+    if r < 0.1:
+        return rng.choice([0, 1, -1, 2, -2, I64_MAX, I64_MIN, I64_MAX - 1, I64_MIN + 1])
+    if r < 0.45:
+        k = rng.randint(0, 62)
+        return rng.choice([-1, 1]) * rng.randint(2 ** k // 2, 2 ** k)
+    if r < 0.75:
+        k = rng.randint(24, 62)
+        return rng.choice([-1, 1]) * (2 ** k + rng.randint(-3, 3) * 2 ** max(0, k - 24) // 2 + rng.randint(-2, 2))
+    return rng.randint(-10 ** 12, 10 ** 12)
+
+
+def gen_C18(rng, tier):
+    L = []
+    n = n_of(tier, 6000, 50000)
+    for _ in range(n):
+        a, b = strat_i64(rng), strat_i64(rng)
+        if rng.random() < 0.5:
+            b = rng.choice([0, 1, -1, 2, 3, -7, 1000, 10 ** 9, rng.randint(-10 ** 6, 10 ** 6)])
+        ty = rng.choice("TD")
+        op = rng.choice(["add", "sub", "addas", "subas"])
+        L.append("q %s %s:%d %s:%d" % (op, ty, a, ty, b))
+        op = rng.choice(["mul", "div", "mulas", "divas"])
+        L.append("q %s D:%d D:%d" % (op, a, b))
+        L.append("q %s T:%d D:%d" % (op, a, b))
+        L.append("q %s D:%d T:%d" % (rng.choice(["mul", "div"]), b, a))
+        L.append("q neg %s:%d" % (ty, a))
+    # conversions
+    ts = sorted(set(strat_i64(rng) for _ in range(n_of(tier, 4000, 40000))))
+    for t in ts:
+        L.append("q toq T:%d" % t)
+        L.append("q toq D:%d" % t)
+        L.append("q toi T:%d" % t)
+        L.append("q mkt I:%d" % t)
+        L.append("q mkd I:%d" % t)
+    # f32 seconds below 9e9, stratified exponent/mantissa sampling
+    for _ in range(n_of(tier, 6000, 50000)):
+        e = rng.randint(1, 160)          # biased exponent: 2^-126 .. 2^33
+        man = rng.choice([0, 1, 0x7fffff, 0x400000, rng.randint(0, 0x7fffff)])
+        bits = (rng.randint(0, 1) << 31) | (e << 23) | man
+        h = "%08x" % bits
+        if abs(h2f(h)) >= 9e9:
+            continue
+        L.append("q tot Q:%s:0,1" % h)
+        L.append("q tod Q:%s:0,0" % h)
+    for (m, s) in GRID:
+        L.append("q tot %s" % q(rand_f(rng, -5, 5), m, s))
+        L.append("q tod %s" % q(rand_f(rng), m, s))
+    # mixed operators yielding a Quantity, on all 49 units
+    for (m, s) in GRID:
+        for op in ["add", "sub", "mul", "div", "addas", "subas", "mulas", "divas"]:
+            for _ in range(n_of(tier, 2, 8)):
+                t = rng.choice([strat_i64(rng), rng.randint(-10 ** 13, 10 ** 13)])
+                L.append("q %s %s T:%d" % (op, q(rand_f(rng), m, s), t))
+                L.append("q %s %s D:%d" % (op, q(rand_f(rng), m, s), t))
+                if not op.endswith("as"):
+                    L.append("q %s T:%d %s" % (op, t, q(rand_f(rng), m, s)))
+                    L.append("q %s D:%d %s" % (op, t, q(rand_f(rng), m, s)))
+    for _ in range(n_of(tier, 500, 4000)):
+        a, b = strat_i64(rng), strat_i64(rng)
+        L.append("q mul T:%d T:%d" % (a, b))
+        L.append("q div T:%d T:%d" % (a, b))
+        L.append("q div D:%d T:%d" % (a, b))
+    return L
+
+
+GENERATORS.update({"C14": gen_C14, "C18": gen_C18})
